@@ -104,6 +104,8 @@ structure MState where
   avail : List (Nat × Nat) := []         -- (cid, data) legitimately available to the server half
   puts : List (Nat × List (Nat × Nat)) := []
   accepted : List (Nat × Nat) := []      -- (cid, data) accepted by the client gate
+  refWl : List (Nat × List Nat) := []    -- per peer: the reference fold of its wantlist messages (C06 / C07)
+  owed : List (Nat × Nat) := []          -- (peer, cid): new wants whose blockstore lookup has not started yet
 
 def rm (l ks : List Nat) : List Nat := l.filter (· ∉ ks)
 def add (l ks : List Nat) : List Nat := l ++ ks.filter (· ∉ l)
@@ -138,6 +140,31 @@ def parseBlk (t : String) : Option (Nat × List (Nat × Nat)) :=
 
 abbrev Viol := String × String   -- property, text
 
+/-- Reference semantics of one wantlist message (Bitswap: a full list replaces, cancels are applied
+before wants, at most 1024 CIDs are recorded): entries are `(cid?, cancel)`. -/
+def refApply (cur : List Nat) (full : Bool) (es : List (Option Nat × Bool)) : List Nat :=
+  if full then
+    ((es.filterMap fun e => if e.2 then none else e.1).take 1024).eraseDups
+  else
+    let cancels := es.filterMap fun e => if e.2 then e.1 else none
+    let adds := es.filterMap fun e => if e.2 then none else e.1
+    adds.foldl (fun (acc : List Nat × Bool) k =>
+      if acc.2 then acc
+      else if acc.1.length ≥ 1024 then (acc.1, true)
+      else if k ∈ acc.1 then acc else (acc.1 ++ [k], false)) (cur.filter (· ∉ cancels), false) |>.1
+
+def parseWl (w : String) : Option (Bool × List (Option Nat × Bool)) :=
+  if w == "N" then none else
+  match w.splitOn "/" with
+  | [f, es] =>
+    some (f == "1", (if es.isEmpty then [] else es.splitOn ",").map fun t =>
+      let c := t.endsWith "!"
+      let b := if c then (t.dropEnd 1).toString else t
+      (b.toNat?, c))
+  | _ => none
+
+def sameSet (a b : List Nat) : Bool := a.all (· ∈ b) && b.all (· ∈ a)
+
 def quiescent (s : Snap) (ps : PeerSnap) : Bool :=
   ps.sending == "ready" && !ps.sendFull && !ps.force && ps.synced == s.rev
 
@@ -170,7 +197,14 @@ def checkState (st : MState) (s : Snap) : List Viol :=
         (s.want.filterMap fun k => if k ∈ g.told || k ∈ g.dh || k ∈ g.deliv then none
           else some ("C04", s!"nothing to send to peer {p}, yet wanted cid {k} is not in its view (no DONT_HAVE, not delivered)"))
       else []
-  v13 ++ v13b ++ v06a ++ v06b ++ v03 ++ v04
+  -- the record of every connected peer is the reference fold of its messages minus what was served
+  let vref := st.refWl.flatMap fun (p, ks) =>
+    let rec_ := (lookup s.swl p).getD []
+    (ks.filterMap fun k => if k ∈ rec_ then none
+      else some ("C06", s!"the server's record of peer {p} lacks cid {k}, which the peer wants according to its wantlist messages")) ++
+    (rec_.filterMap fun k => if k ∈ ks then none
+      else some ("C07", s!"the server's record of peer {p} holds cid {k}, which the peer does not want according to its wantlist messages"))
+  v13 ++ v13b ++ v06a ++ v06b ++ v03 ++ v04 ++ vref
 
 def bump (l : List (Nat × Nat)) (q : Nat) : List (Nat × Nat) :=
   if l.any (·.1 == q) then l.map fun e => if e.1 == q then (e.1, e.2 + 1) else e else l ++ [(q, 1)]
@@ -222,13 +256,27 @@ def stepMon (st : MState) (op : String) (out : String) : MState × List Viol :=
           | _ => (st, [])
         | ["newblocks", b] =>
           ({ st with avail := ((NodeIO.parsePairs b).getD []) ++ st.avail }, [])
-        | ["msg", p, h, d, b, _w] =>
+        | ["msg", p, h, d, b, w] =>
           let p := p.toNat?.getD 0
+          -- serving side: the reference fold of this peer's wantlist messages
+          let (st, vref) : MState × List Viol :=
+            match (NodeIO.kv w "w").bind parseWl, lookup st.refWl p with
+            | some (full, es), some cur =>
+              let new := refApply cur full es
+              let added := new.filter (· ∉ cur)
+              let st := { st with refWl := st.refWl.map (fun e => if e.1 == p then (p, new) else e),
+                                  owed := st.owed.filter (fun pk => !(pk.1 == p && pk.2 ∉ new)) ++ added.map (p, ·) }
+              let rec_ := (lookup snap.swl p).getD []
+              (st, (new.filterMap fun k => if k ∈ rec_ then none
+                     else some ("C06", s!"peer {p} expressed a want for cid {k} (wantlist messages applied in order) but the server's record lacks it")) ++
+                   (rec_.filterMap fun k => if k ∈ new then none
+                     else some ("C07", s!"peer {p} withdrew its want for cid {k} (cancel / full wantlist omitting it) but the server still records it")))
+            | _, _ => (st, [])
           let hs := ((NodeIO.kv h "h").bind NodeIO.natList).getD []
           let ds := ((NodeIO.kv d "d").bind NodeIO.natList).getD []
           let bs := ((NodeIO.kv b "b").bind NodeIO.parsePairs).getD []
           match lookup prev.peers p with
-          | none => (st, [])
+          | none => (st, vref)
           | some ps =>
             let accepted := bs.filter fun kd => kd.1 ∈ prev.want
             let gs := st.ghosts.map fun (q, g) =>
@@ -239,10 +287,11 @@ def stepMon (st : MState) (op : String) (out : String) : MState × List Viol :=
               (q, g)
             -- C01 gate: the wantlist after the message is the old one minus the accepted CIDs
             let v := if snap.want.all (fun k => k ∈ prev.want) then [] else [("C01", "an incoming message added CIDs to the wantlist")]
-            ({ st with ghosts := gs, accepted := accepted ++ st.accepted }, v)
+            ({ st with ghosts := gs, accepted := accepted ++ st.accepted }, v ++ vref)
         | "connect" :: p :: c :: _ =>
           let p := p.toNat?.getD 0
           let c := c.toNat?.getD 0
+          let st := if (lookup st.refWl p).isSome then st else { st with refWl := st.refWl ++ [(p, [])] }
           match lookup prev.peers p, lookup snap.peers p with
           | some a, some b =>
             let same := a.sending == b.sending && a.sendFull == b.sendFull && a.req == b.req && a.force == b.force && a.synced == b.synced
@@ -254,6 +303,7 @@ def stepMon (st : MState) (op : String) (out : String) : MState × List Viol :=
           | _, _ => (st, [])
         | ["closed", p, _c, rem] =>
           let p := p.toNat?.getD 0
+          let st := if rem == "0" then { st with refWl := st.refWl.filter (·.1 != p), owed := st.owed.filter (·.1 != p) } else st
           if rem == "0" then
             (st, (if (lookup snap.swl p).isSome || snap.swt.any (fun kp => p ∈ kp.2) then [("C13", s!"server-side state about peer {p} kept after its last connection closed")] else []) ++
                  (if (lookup snap.peers p).isSome then [("C13", s!"client-side state about peer {p} kept after its last connection closed")] else []))
@@ -335,8 +385,18 @@ def stepMon (st : MState) (op : String) (out : String) : MState × List Viol :=
             ((lookup prev.swt k).getD []).filterMap fun p =>
               if blks.any (fun pb => pb.1 == p && pb.2.any (·.1 == k % 7)) then none
               else some ("C06", s!"block for cid {k} was queued and peer {p} waited for it, but it was not sent")
-          ({ st with events := events, calls := calls ++ st.calls, puts := puts ++ st.puts, ghosts := gs },
-           v03 ++ v01 ++ vsend ++ vdup ++ v07 ++ v06)
+          let refWl := st.refWl.map fun (p, ks) =>
+            let before := (lookup prev.swl p).getD []
+            let after := (lookup snap.swl p).getD []
+            let classes := (blks.filter (·.1 == p)).flatMap (·.2.map (·.1))
+            (p, ks.filter fun k => !(k ∈ before && k ∉ after && (k % 7) ∈ classes))
+          let owed := st.owed.filter fun pk => !(calls.any (·.2 == pk.2)) && ((lookup refWl pk.1).getD []).contains pk.2
+          let vowed := if snap.stasks == 0 then owed.map fun pk =>
+              ("C06", s!"peer {pk.1}'s new want for cid {pk.2} is recorded but no blockstore lookup was ever started for it (no lookup task left)")
+            else []
+          ({ st with events := events, calls := calls ++ st.calls, puts := puts ++ st.puts, ghosts := gs, refWl := refWl,
+                     owed := if snap.stasks == 0 then [] else owed },
+           v03 ++ v01 ++ vsend ++ vdup ++ v07 ++ v06 ++ vowed)
         | _ => (st, [])
       let st := { st with prev := snap }
       (st, v ++ checkState st snap)
